@@ -413,7 +413,7 @@ HARNESSES = [
     dict(name='peekNext', fn='peekNext', replace=[], flags=F, props=['C13', 'C12'], timeout=120),
     dict(name='advance', fn='advance', replace=[], flags=F, props=['C15', 'C13', 'C12'], timeout=120),
     dict(name='match', fn='match', replace=[], flags=F, props=['C15', 'C13', 'C12'], timeout=120),
-    dict(name='reportError', fn='reportError', replace=[], flags=F, props=['C13'], timeout=120),
+    dict(name='reportError', fn='reportError', replace=[], flags=F, props=['C13'], timeout=120, canaries=[('bl_exc != 0', 'exceptional return')]),
     dict(name='makeToken', fn='makeToken', replace=[], flags=F, props=['C15'], timeout=120),
     dict(name='skipComment', fn='skipComment', replace=['advance'], flags=F, props=['C15', 'C13', 'C12'], timeout=300),
     dict(name='skipWhitespace', fn='skipWhitespace', replace=['advance', 'peek', 'peekNext', 'skipComment'], flags=F, props=['C15', 'C13', 'C12'], timeout=300),
